@@ -109,7 +109,7 @@ def src(cfg, k, j):
     return True
 
 
-def oracle_direct(cfg, xs, ghosts, weight=None, pairs=None, wcond=1.0):
+def oracle_direct(cfg, xs, ghosts, weight=None, pairs=None, wcond=1.0, poserr=0.0):
     """a_k = sum_{gb} sum_{j in src(k)} -G m_j w_kj d / (|d|^2+eps^2)^{3/2},  d = x_k + gb - x_j.
     returns (acc, absacc) with absacc = sum of |terms| (the scale of the rounding error)"""
     n, G, ms = cfg["N"], cfg["G"], cfg["ms"]
@@ -132,6 +132,8 @@ def oracle_direct(cfg, xs, ghosts, weight=None, pairs=None, wcond=1.0):
                 else:
                     f = -G * ms[j] * r2 ** -1.5
                 fa = abs(f) * wcond      # weights are evaluated with an absolute error of wcond ulps
+                if poserr and r2 > 0:    # ghost shifts known only to `poserr` (wrapped with a different formula than the code)
+                    fa *= 1.0 + 3.0 * poserr / (EPS * math.sqrt(r2))
                 if weight is not None:
                     f *= weight(k, j, math.sqrt(r2))
                 tx.append(f * dx); ty.append(f * dy); tz.append(f * dz)
@@ -326,6 +328,100 @@ def run(c):
             c.sample({"routine": "basic", "N": n, "N_active": cfg["Na"], "type": cfg["tp"], "ignore": cfg["ignore"],
                       "ghost": [cfg["ngx"], cfg["ngy"], cfg["ngz"]], "masses": cfg["ms"][:4], "a0": list(got[0]) if n else None})
 
+    # ======================================================================= BASIC / TREE with shear-periodic ghost boxes
+    def shear_lattice(cfg, code_convention=False):
+        """ghost shifts of REB_BOUNDARY_SHEAR.  Spec: column i is displaced in y by -1.5 i OMEGA Lx t wrapped to the
+        nearest image [-Ly/2, Ly/2].  code_convention=True re-implements boundary.c's three fmod formulas."""
+        bx, by, bz = cfg["bs"]
+        out = []
+        for i in range(-cfg["ngx"], cfg["ngx"] + 1):
+            vy = -1.5 * i * cfg["OMEGA"] * bx
+            if code_convention:
+                if i == 0:
+                    shift = -math.fmod(vy * cfg["t"], by)
+                elif i > 0:
+                    shift = -math.fmod(vy * cfg["t"] - by / 2., by) - by / 2.
+                else:
+                    shift = -math.fmod(vy * cfg["t"] + by / 2., by) + by / 2.
+                off = -shift
+            else:
+                off = vy * cfg["t"]
+                off -= by * round(off / by)
+            for j in range(-cfg["ngy"], cfg["ngy"] + 1):
+                for k in range(-cfg["ngz"], cfg["ngz"] + 1):
+                    out.append((bx * i, by * j + off, bz * k))
+        return out
+
+    shist = {"t>0": 0, "t<0": 0, "t=0": 0, "wrap_beyond_half_box": 0}
+    for case in range(60 * T):
+        rng = c.rng.fork()
+        n = rng.randint(2, 14)
+        cfg = gen_common(rng, n)
+        L = cfg["scale"] * rng.uniform(4, 12)
+        cfg.update(boundary="shear", ngx=rng.randint(1, 2), ngy=rng.randint(0, 2), ngz=0, soft=cfg["scale"] * rng.choice([0.0, 0.01, 0.3]))
+        cfg["OMEGA"] = rng.choice([1.0, rng.loguniform(0.1, 10.0)])
+        tk = rng.randint(0, 9)
+        period = 1.0 / (1.5 * cfg["OMEGA"])          # time for column i=1 to drift by one box (Lx = Ly)
+        cfg["t"] = 0.0 if tk == 0 else (-1.0 if tk >= 8 else 1.0) * period * rng.choice([rng.uniform(0, 0.5), rng.uniform(0.5, 1.0), rng.uniform(1.0, 40.0)])
+        xs = gen_positions(rng, n, cfg["scale"], inside=L / 2)
+        grav = "basic" if case % 3 else "tree"
+        if grav == "tree":
+            cfg.update(Na=-1, tp=0, ignore=0)
+            if len(set(tuple(p) for p in xs)) != len(xs):
+                continue
+        sim = rebound.Simulation()
+        sim.G = cfg["G"]; sim.softening = cfg["soft"]
+        sim.gravity = grav
+        sim.opening_angle2 = 0.0
+        sim.ri_sei.OMEGA = cfg["OMEGA"]
+        sim.configure_box(L)
+        sim.boundary = "shear"
+        sim.N_ghost_x, sim.N_ghost_y, sim.N_ghost_z = cfg["ngx"], cfg["ngy"], cfg["ngz"]
+        cfg["bs"] = (sim.boxsize.x, sim.boxsize.y, sim.boxsize.z)
+        for i in range(n):
+            sim.add(m=cfg["ms"][i], x=xs[i][0], y=xs[i][1], z=xs[i][2])
+        sim.N_active = cfg["Na"]; sim.testparticle_type = cfg["tp"]; sim.gravity_ignore = cfg["ignore"]
+        sim.t = cfg["t"]
+        if grav == "tree":
+            clib.reb_simulation_update_tree(ctypes.byref(sim))
+            clib.reb_simulation_update_tree_gravity_data(ctypes.byref(sim))
+            if sim.N != n:
+                continue
+            xs = [[sim.particles[i].x, sim.particles[i].y, sim.particles[i].z] for i in range(n)]
+            cfg["ms"] = [sim.particles[i].m for i in range(n)]
+        calc(sim)
+        got = read_acc(sim, n)
+        na = n if cfg["Na"] == -1 else cfg["Na"]
+        shist["t=0" if cfg["t"] == 0 else ("t>0" if cfg["t"] > 0 else "t<0")] += 1
+        drift = abs(1.5 * cfg["OMEGA"] * cfg["bs"][0] * cfg["t"]) * cfg["ngx"]
+        if math.fmod(abs(1.5 * cfg["OMEGA"] * cfg["bs"][0] * cfg["t"]), cfg["bs"][1]) > cfg["bs"][1] / 2:
+            shist["wrap_beyond_half_box"] += 1
+        poserr = 8 * EPS * (drift + 2 * cfg["bs"][1])
+        pairs = (lambda k, j: k != j) if grav == "tree" else None
+        want, mag = oracle_direct(cfg, xs, shear_lattice(cfg), pairs=pairs, poserr=poserr)
+        note("shear-" + grav, cfg)
+        if grav == "basic":
+            _, magc = oracle_direct(cfg, xs, shear_lattice(cfg, True), pairs=pairs)
+            add_line(["shear", n, na, cfg["tp"], cfg["ignore"], cfg["ngx"], cfg["ngy"], cfg["ngz"], d2h(cfg["G"]), d2h(cfg["soft"]),
+                      d2h(cfg["bs"][0]), d2h(cfg["bs"][1]), d2h(cfg["bs"][2]), d2h(cfg["OMEGA"]), d2h(cfg["t"])] + body_tokens(cfg["ms"], xs),
+                     got, ("shear", cfg, xs, magc))
+        q, kq = cmp_acc(got, want, mag)
+        if cfg["t"] >= 0:
+            worst["shear-" + grav] = max(worst.get("shear-" + grav, 0.0), q if q != float("inf") else 1e300)
+        if q > 1.0:
+            rep = dict(routine="shear-" + grav, cfg=dict(cfg), xs=xs, particle=kq, got=got[kq], want=want[kq], excess=q)
+            key = "shear-" + grav
+            if cfg["t"] < 0:
+                # does the code at least sum over its own (not nearest-image) lattice?  then it is the negative-time finding
+                want2, mag2 = oracle_direct(cfg, xs, shear_lattice(cfg, True), pairs=pairs, poserr=poserr)
+                if cmp_acc(got, want2, mag2)[0] <= 1.0:
+                    key = "FC02b:shear-negative-t-not-nearest-image"
+            viol.append((key, "%s gravity with shear-periodic ghost boxes at t=%g: acceleration of particle %d differs from the sum over the sheared nearest-image lattice by %.3g x tolerance "
+                         "(N=%d N_ghost=(%d,%d) OMEGA=%g)" % (grav, cfg["t"], kq, q, n, cfg["ngx"], cfg["ngy"], cfg["OMEGA"]), rep))
+        if na == n and cfg["ignore"] == 0:
+            third_law("shear-" + grav, cfg, xs, got, mag, torque=False)
+    c.cov["shear_histogram"] = shist
+
     # ======================================================================= COMPENSATED
     for case in range(120 * T):
         rng = c.rng.fork()
@@ -356,6 +452,7 @@ def run(c):
     # ======================================================================= JACOBI
     def oracle_jacobi(cfg, xs):
         n, G, ms = cfg["N"], cfg["G"], cfg["ms"]
+        naj = n if cfg["Na"] == -1 else cfg["Na"]
         R, M, Q, Qcond = [], [], [], []
         for j in range(n):
             Mj = math.fsum(ms[:j])
@@ -372,7 +469,8 @@ def run(c):
         for i in range(n):
             t = [[], [], []]; ta = []
             for j in range(n):
-                if j == i or {i, j} == {0, 1}:
+                # direct term: every pair with at least one active member (test particles do not see each other), minus {0,1}
+                if j == i or {i, j} == {0, 1} or not (i < naj or j < naj):
                     continue
                 d = [xs[i][c_] - xs[j][c_] for c_ in range(3)]
                 r2 = d[0] * d[0] + d[1] * d[1] + d[2] * d[2]
@@ -400,7 +498,7 @@ def run(c):
         rng = c.rng.fork()
         n = gen_N(rng, big_ok=False)
         cfg = gen_common(rng, n)
-        cfg.update(Na=-1, tp=0, ignore=1, soft=0.0)
+        cfg.update(tp=rng.randint(0, 1), ignore=1, soft=0.0)     # N_active varied: test particles do not attract each other
         if n:
             cfg["ms"][0] = max(cfg["ms"][0], 1e-300) if cfg["ms"][0] > 0 else rng.loguniform(1e-3, 1e3)
         xs = gen_positions(rng, n, cfg["scale"])
@@ -411,7 +509,7 @@ def run(c):
         calc(sim)
         got = read_acc(sim, n)
         want, mag = oracle_jacobi(cfg, xs)
-        add_line(["jacobi", n, d2h(cfg["G"])] + body_tokens(cfg["ms"], xs), got, ("jacobi", cfg, xs, mag))
+        add_line(["jacobi", n, (n if cfg["Na"] == -1 else cfg["Na"]), d2h(cfg["G"])] + body_tokens(cfg["ms"], xs), got, ("jacobi", cfg, xs, mag))
         note("jacobi", cfg)
         check_oracle("jacobi", cfg, xs, got, want, mag)
 
@@ -423,7 +521,11 @@ def run(c):
         sims = []
         a0 = rng.uniform(0.5, 1.5)
         orb = [(a0 * 1.5 ** i * rng.uniform(0.95, 1.05), rng.uniform(0, 0.1), rng.uniform(0, 0.1), rng.uniform(0, 6.28), rng.uniform(0, 6.28), rng.uniform(0, 6.28)) for i in range(n - 1)]
-        ntest = rng.randint(0, 2)
+        ntest = rng.randint(0, min(2, n - 2))
+        tptype = rng.randint(0, 1)
+        if ntest and tptype == 0:        # type 0: test particles are massless (BASIC ignores their mass, JACOBI does not)
+            for i in range(n - ntest, n):
+                ms[i] = 0.0
         dt = rng.uniform(0.005, 0.05)
         for grav in ("basic", "jacobi"):
             sim = rebound.Simulation()
@@ -434,6 +536,9 @@ def run(c):
             for i in range(n - 1):
                 a, e, inc, Om, om, f = orb[i]
                 sim.add(m=ms[i + 1], a=a, e=e, inc=inc, Omega=Om, omega=om, f=f)
+            if ntest:
+                sim.N_active = n - ntest
+                sim.testparticle_type = tptype
             sim.steps(3)
             sims.append(sim)
         errs = 0.0
@@ -442,11 +547,11 @@ def run(c):
             for k_ in ("x", "y", "z", "vx", "vy", "vz"):
                 errs = max(errs, abs(getattr(p, k_) - getattr(q, k_)))
         worst["whfast jacobi-vs-basic"] = max(worst.get("whfast jacobi-vs-basic", 0.0), errs / 1e-12)
-        c.count(("jacobi-split", n, case % 7))
+        c.count(("jacobi-split", n, ntest, tptype, case % 7))
         hist["jacobi-split"] = hist.get("jacobi-split", 0) + 1
         if not errs <= 1e-12:
-            viol.append(("jacobi-split", "WHFast with gravity=jacobi and gravity=basic disagree after 3 steps by %.3g (N=%d)" % (errs, n),
-                         dict(ms=ms, orbits=orb, dt=dt, err=errs)))
+            viol.append(("jacobi-split" + (":tp%d" % tptype if ntest else ""), "WHFast with gravity=jacobi and gravity=basic disagree after 3 steps by %.3g (N=%d, %d test particles, type %d)" % (errs, n, ntest, tptype),
+                         dict(ms=ms, orbits=orb, dt=dt, err=errs, ntest=ntest, testparticle_type=tptype)))
 
     # ======================================================================= MERCURIUS (mode 0 / mode 1)
     LNAMES = ["mercury", "C4", "C5", "infinity"]
